@@ -399,3 +399,23 @@ for _m, _nb in ((1, 1), (1, 2), (0, 1)):
     _u = pysam_align(_m, _nb)
     _u.replay = pysam_align_replay(_m)
     UNITS.append(_u)
+
+
+# ------------------------------------------------------------------------------ heavy nesting in the quick tier: one feature enclosing two
+# disjoint ones (the three-feature histories are thorough-tier units; this configuration - the one in which the cluster index
+# `lowestStarts` built by sort() matters - is cheap enough for every run because the order of the coordinates is fixed)
+def nested3():
+    src = ['fc = FeatureContainer()']
+    for i in range(3):
+        src.append('fc.addFeature("ctg", F[%d][0], F[%d][1], F[%d][2], "+" if F[%d][3] else "-")' % (i, i, i, i))
+    src += ['fc.sort()', 'result = fc.findFeaturesAt("ctg", q, strand)', 'return result']
+    return Contract(
+        PROP, FF + '::FeatureContainer', name='findFeaturesAt[one feature enclosing two disjoint ones]',
+        harness='\n'.join(src), params={'F': feats(3), 'q': 'int', 'strand': 'none'},
+        requires=['F[0][0] < F[1][0]', 'F[1][1] < F[2][0]', 'F[2][1] < F[0][1]'],
+        setup=lambda eng: eng.ghost.clear(), ensures=HIST_SPEC, raises={},
+        bounded='3 features on one contig: F0 encloses F1 and F2, F1 ends before F2 starts (symbolic coordinates/strands)',
+        max_paths=40000)
+
+
+UNITS.append(nested3())
